@@ -134,7 +134,9 @@ CLAIMED.update({
                  'reads to exactly its denotation: the chain plus one ring bond per closed marker with the order written in '
                  'front of the opening marker, SyntaxError when a ring bond duplicates a bond or a marker stays open (ring scan '
                  'lemma scan_marks over the marker text incl. the %nn state machine, stepNode_ring, fold_rtail). C04_read_bare_chain: '
-                 'the same chains without surrounding braces, as the fragment reader passes them. Rings inside '
+                 'the same chains without surrounding braces, as the fragment reader passes them. C04_read_annotated_chain: chains whose '
+                 'node texts are ANY texts the base dialect accepts (name plus positional / keyword annotations): node i of the '
+                 'result carries exactly the annotation values the dialect (C14) reads from the i-th node text. Rings inside '
                  'branches and annotations inside nodes: ring parity law, documented examples by kernel evaluation; their '
                  'unbounded statement is validated by correspondence of the faithful model with the code on grammar ASTs plus an '
                  'independent denotation oracle (partial).'),
